@@ -16,9 +16,9 @@ import (
 // C10 - a context bounds only its own call; after success its cancellation is harmless.
 
 type c10Op struct {
-	Kind   string `json:"kind"`   // read | reader | write | writer | ping
-	Size   int    `json:"size"`   // message size
-	Frags  int    `json:"frags"`  // fragments (peer side for reads, chunks for writer)
+	Kind   string `json:"kind"`  // read | reader | write | writer | ping
+	Size   int    `json:"size"`  // message size
+	Frags  int    `json:"frags"` // fragments (peer side for reads, chunks for writer)
 	Comp   bool   `json:"compressed,omitempty"`
 	Ctl    bool   `json:"control_frames_interleaved,omitempty"`
 	Cancel string `json:"cancel"` // after-return | after-return-delayed | deadline-after-return | during-next
@@ -81,11 +81,11 @@ func c10Gen(tier string, seed int64) []fw.Case {
 		for _, role := range bothRoles {
 			for pi, p := range []wire.Params{{}, {Deflate: true}} {
 				for _, b := range []string{"read", "reader-read", "write", "writer-write", "writer-close", "ping", "read-partial-frame", "reader-read-partial-frame", "read-partial-header", "read-partial-ping", "read-pong-blocked"} {
-					for _, pre := range []string{"none", "ping-interleaved", "concurrent-write-completed", "concurrent-read-completed", "earlier-op-cancelled", "ping-queued-behind", "write-queued-behind"} {
+					for _, pre := range []string{"none", "ping-interleaved", "concurrent-write-completed", "concurrent-read-completed", "earlier-op-cancelled", "ping-queued-behind", "write-queued-behind", "write-queued-before-blocking"} {
 						if pre == "ping-queued-behind" && b != "write" && b != "writer-write" && b != "writer-close" {
 							continue
 						}
-						if pre == "write-queued-behind" && b != "writer-write" && b != "writer-close" {
+						if (pre == "write-queued-behind" || pre == "write-queued-before-blocking") && b != "writer-write" && b != "writer-close" {
 							continue
 						}
 						if (b == "read-partial-ping" || b == "read-pong-blocked") && pre != "none" && pre != "earlier-op-cancelled" {
@@ -487,6 +487,22 @@ func c10Blocked(r *fw.R, d c10Desc) {
 			if perr != nil {
 				r.Violate("C10/setup-failed", what+": interleaved ping: "+perr.Error(), "")
 				return
+			}
+		}
+		if d.Pre == "write-queued-before-blocking" {
+			// other goroutines already wait for their turn, with contexts of their own, when our writer's
+			// next call blocks: only OUR context governs our call
+			for i := 0; i < 2; i++ {
+				go func() {
+					qctx, qc := context.WithTimeout(base, 20*time.Second)
+					defer qc()
+					if i == 0 {
+						c.Write(qctx, websocket.MessageText, []byte("queued behind the open writer"))
+					} else if qw, err := c.Writer(qctx, websocket.MessageText); err == nil {
+						qw.Close()
+					}
+				}()
+				time.Sleep(2 * time.Millisecond)
 			}
 		}
 		close(stopReading)
